@@ -54,7 +54,8 @@ Definition check_case (c : case) : bool :=
        rows_nan (map2 (fun s v => intersect_segment_with_plane QOps s v (pref pl) (pnormal pl)) a segv) isp_single &&
        rows_nan (intersect_segments_with_planes QOps a segv (repeat (pref pl) k) (repeat (pnormal pl) k)) isp_stack)
   | CLines exact band pl pts rays single st_rows st_valid =>
-      negb (exact || forallb (fun r => away band (xs_denom QOps pl r)) rays) ||
+      (* the rounding error of ray.normal is relative to the length of the ray: band 1e-6 |ray| *)
+      negb (exact || forallb (fun r => away ((1 # 1000000) * vmag r) (xs_denom QOps pl r)) rays) ||
       (let m := mag (pref pl :: pts ++ rays) in
        rows_opt m (map2 (line_xsection QOps pl) pts rays) single &&
        rows_nan m (fst (line_xsections QOps pl pts rays)) st_rows &&
